@@ -117,7 +117,8 @@ func init() {
 	register(&Check{ID: "C16",
 		Scenarios: func(tier string) []*explore.Scenario {
 			var out []*explore.Scenario
-			chances := []int{-1000, 1000}
+			// out-of-range values, including ones whose low 32 / 8 / 16 bits look like a valid chance
+			chances := []int{-1000, 1000, 1 << 31, 1 << 32, 1<<32 + 50, 1 << 40, 1<<40 + 7, -(1 << 32) + 50, 256 + 50, 65536 + 50, int(^uint(0) >> 1), -int(^uint(0)>>1) - 1}
 			for c := -5; c <= 105; c++ {
 				chances = append(chances, c)
 			}
@@ -128,6 +129,6 @@ func init() {
 			}
 			return out
 		},
-		Rule:        "for every chance in {-1000,-5..105,1000}: one datagram x all 100 values of the Intn(100) draw, and streams of 2 and 3 datagrams x the boundary draws {0,chance-1,chance,99}; oracle: exactly one draw from [0,100) per datagram, forwarded iff draw >= chance (hence exactly clamp(chance,0,100) of the 100 equally likely draws drop), survivors byte-identical, in order, once",
+		Rule:        "for every chance in {-5..105 and out-of-range values: -1000, 1000, 2^31, 2^32, 2^32+50, 2^40, 306, 65586, -2^32+50, MaxInt, MinInt}: one datagram x all 100 values of the Intn(100) draw, and streams of 2 and 3 datagrams x the boundary draws {0,chance-1,chance,99}; oracle: exactly one draw from [0,100) per datagram, forwarded iff draw >= chance (hence exactly clamp(chance,0,100) of the 100 equally likely draws drop), survivors byte-identical, in order, once",
 		Assumptions: []string{"math/rand.Intn is uniform; the statistical clause of the property is replaced by exact enumeration of the draw space"}})
 }
